@@ -183,6 +183,16 @@ def r2_validate_before_install_and_notify_on_success(ctx):
                 return any(P.un(c.func) == "self._compare_and_set" and [P.un(x) for x in c.args] == args for c in P.calls(a.ast))
 
             ok = bool(nn) and all(g.edge_dominated(t, success_edge) for t in nn)
+            if not ok and len(nc.args) == 2:
+                # accepted idiom: old read and new stored inside one critical section that dominates the notification
+                for w in ast.walk(m):
+                    if isinstance(w, ast.With) and any(P.un(it.context_expr) in LOCK for it in w.items):
+                        reads = [s for s in w.body if isinstance(s, ast.Assign) and P.un(s.value) == "self._state" and any(P.un(t) == args[0] for t in s.targets)]
+                        stores = [s for s in w.body if isinstance(s, ast.Assign) and any(P.is_self_attr(t, "_state") for t in s.targets) and P.un(s.value) == args[1]]
+                        if reads and stores and w.body.index(reads[0]) < w.body.index(stores[0]):
+                            sn = [nd for nd in g.nodes if nd.ast is stores[0]]
+                            if nn and all(g.dominated(t, sn) for t in nn):
+                                ok = True
             ctx.ob("C12.R2", f"{ATOM}::Atom.{m.name}::notify-on-success::{P.un(nc)}", ATOM, nc.lineno, ok,
                    "" if ok else f"{P.un(nc)} is reachable without a successful _compare_and_set({', '.join(args)}): watches would see a transition that did not happen")
 
@@ -373,3 +383,52 @@ def r3_lisp_cas_loops(ctx):
         f = body[-1]
         ok = L.head(f) == ".compare-and-set" and [x.text() for x in f.items[1:]] == pn
         ctx.ob("C12.R3", f"{CORE}::compare-and-set!::{params.text()}", CORE, f.line, ok, "" if ok else f"`{f.text()}` does not forward {pn} in order")
+
+
+SELFTEST = [
+    {"name": "store outside lock", "file": ATOM, "expect": "C12.R1",
+     "old": "        with self._lock:\n            if self._state is not old and self._state != old:\n                return False\n            self._state = new\n            return True\n",
+     "new": "        with self._lock:\n            if self._state is not old and self._state != old:\n                return False\n        self._state = new\n        return True\n"},
+    {"name": "CAS comparison dropped", "file": ATOM, "expect": "C12.R1",
+     "old": "            if self._state is not old and self._state != old:\n                return False\n", "new": ""},
+    {"name": "swap without CAS", "file": ATOM, "expect": "C12.R1",
+     "old": "            if self._compare_and_set(oldval, newval):\n                self._notify_watches(oldval, newval)\n                return newval\n",
+     "new": "            with self._lock:\n                self._state = newval\n            self._notify_watches(oldval, newval)\n            return newval\n"},
+    {"name": "validate after CAS", "file": ATOM, "expect": "C12.R2",
+     "old": "            self._validate(newval)\n            if self._compare_and_set(oldval, newval):\n                self._notify_watches(oldval, newval)\n",
+     "new": "            if self._compare_and_set(oldval, newval):\n                self._validate(newval)\n                self._notify_watches(oldval, newval)\n"},
+    {"name": "notify regardless of CAS outcome", "file": ATOM, "expect": "C12.R2",
+     "old": "        if self._compare_and_set(old, new):\n            self._notify_watches(old, new)\n            return True\n        return False\n",
+     "new": "        ok = self._compare_and_set(old, new)\n        self._notify_watches(old, new)\n        return ok\n"},
+    {"name": "notify with swapped pair", "file": ATOM, "expect": "C12.R2",
+     "old": "                self._notify_watches(oldval, newval)\n                return newval\n", "new": "                self._notify_watches(newval, oldval)\n                return newval\n"},
+    {"name": "equality-only CAS (the repaired defect)", "file": ATOM, "expect": "C12.R4",
+     "old": "if self._state is not old and self._state != old:", "new": "if self._state != old:"},
+    {"name": "negated-equality CAS", "file": ATOM, "expect": "C12.R4",
+     "old": "if self._state is not old and self._state != old:", "new": "if not (self._state == old):"},
+    {"name": "add_watch unlocked", "file": REF, "expect": "C12.R5",
+     "old": "        with self._lock:\n            self._watches = self._watches.assoc(k, wf)\n            return self\n",
+     "new": "        self._watches = self._watches.assoc(k, wf)\n        return self\n"},
+    {"name": "swap-vals! re-derefs for its result", "file": CORE, "expect": "C12.R3",
+     "old": "      [new-val current]\n      (recur atom f args))))", "new": "      [new-val (deref atom)]\n      (recur atom f args))))"},
+    {"name": "swap! compares against a second deref", "file": CORE, "expect": "C12.R3",
+     "old": "    (if (compare-and-set! atom current new-val)\n      new-val\n", "new": "    (if (compare-and-set! atom (deref atom) new-val)\n      new-val\n"},
+    {"name": "reset-vals! result order", "file": CORE, "expect": "C12.R3",
+     "old": "      [v current]", "new": "      [current v]"},
+    {"name": "swap! drops extra args", "file": CORE, "expect": "C12.R3",
+     "old": "        new-val (apply f current args)]\n    (if (compare-and-set! atom current new-val)\n      new-val\n", "new": "        new-val (f current)]\n    (if (compare-and-set! atom current new-val)\n      new-val\n"},
+    # benign twins
+    {"name": "twin: with -> acquire/try/finally", "file": ATOM, "expect": None,
+     "old": "        with self._lock:\n            if self._state is not old and self._state != old:\n                return False\n            self._state = new\n            return True\n",
+     "new": "        self._lock.acquire()\n        try:\n            if self._state is not old and self._state != old:\n                return False\n            self._state = new\n            return True\n        finally:\n            self._lock.release()\n"},
+    {"name": "twin: positive-form CAS", "file": ATOM, "expect": None,
+     "old": "            if self._state is not old and self._state != old:\n                return False\n            self._state = new\n            return True\n",
+     "new": "            if self._state is old or self._state == old:\n                self._state = new\n                return True\n            return False\n"},
+    {"name": "twin: identity-only CAS", "file": ATOM, "expect": None,
+     "old": "if self._state is not old and self._state != old:", "new": "if self._state is not old:"},
+    {"name": "twin: rename locals in swap", "file": ATOM, "expect": None, "count": "all",
+     "old": "newval", "new": "nv"},
+    {"name": "twin: reset as a locked plain store", "file": ATOM, "expect": None,
+     "old": "        while True:\n            oldval = self._state\n            self._validate(v)\n            if self._compare_and_set(oldval, v):\n                self._notify_watches(oldval, v)\n                return v\n",
+     "new": "        self._validate(v)\n        with self._lock:\n            oldval = self._state\n            self._state = v\n        self._notify_watches(oldval, v)\n        return v\n"},
+]
